@@ -30,8 +30,8 @@ def conditions(tier):
     for pos in (0, 1, 2):
         for depth in (0, 1, 2):
             conds.append(ch.Cond(
-                'h_c02', 'type_spelling', [('sidx', 'int'), ('qbase', 'int'), ('qptr', 'int')],
-                pre=['0 <= sidx < %d' % H.N_SPELL, '0 <= qbase <= 3', '0 <= qptr <= 3'],
+                'h_c02', 'type_spelling', [('sidx', 'int'), ('qbase', 'int'), ('qptr', 'int'), ('arr', 'int')],
+                pre=['0 <= sidx < %d' % H.N_SPELL, '0 <= qbase <= 3', '0 <= qptr <= 3', '0 <= arr <= 2'],
                 fixed=dict(pos=pos, depth=depth), timeout=T,
                 name='type_spelling[%s,%s]' % (posname[pos], 'T' + '*' * depth),
                 bounds='%d C spellings (every C/stdint/GLib basic spelling the scanner knows) x const/volatile on '
